@@ -122,11 +122,22 @@ def oracleC04 (c : TCase) : Verdict :=
   match contentLengthOf c with
   | none => .ok
   | some N =>
+  -- POST / PUT / PATCH over HTTP/1.1 (POST also over 1.0) whose only header is the Content-Length: nothing else could be wrong with it
+  let plainSized := match firstNew c with
+    | some t =>
+      let w := if t.kw == "cnew" then t.op.drop 1 else t.op
+      let m := w.getD 1 ""; let v := w.getD 2 ""
+      ((v == "HTTP/1.1" && (m == "POST" || m == "PUT" || m == "PATCH")) || (v == "HTTP/1.0" && m == "POST")) &&
+        (newHeaders t.op).length == 1 && !c.lines.any (fun l => l.kw == "hdr" || l.kw == "follow")
+    | none => false
   -- the flow that carries the body: after a redirect, the one `as_new_flow` returned
   let lines := match (c.lines.reverse.span (fun t => !(t.kw == "follow" && t.res.headD "" == "flow"))).1.reverse with
     | ls => ls
   let st := lines.foldl (fun (s : C04St) t =>
     if s.fail.isSome || s.needFull then s else
+    -- the head of a request whose only defect could be its (valid, in-range) Content-Length is not refused
+    if plainSized && (t.kw == "write" || (t.kw == "cbwrite" && !s.callHeadDone)) && t.res.headD "" == "fault" && t.res.getD 1 "" != "api:OutputOverflow" && !t.isPanic then
+      { s with fail := some s!"a request declaring Content-Length {N} was refused while its head was written: {t.raw.take 120}" } else
     -- the single-call API: `write` emits the head first (consuming nothing); body accounting starts after it
     if t.kw == "cbwrite" && !s.callHeadDone then
       (match t.res with
